@@ -33,6 +33,8 @@ pub fn generate(g: &mut G, _index: u64) -> Scenario {
         mailbox: g.mailbox(),
         entry: if owning { Entry::BuilderSpawnOwning } else { Entry::BuilderSpawn },
         stopped_yields: g.below(3) as u32,
+        stopped_sleep: if g.chance(1, 5) { g.range(5, 40) } else { 0 },
+        timeout: if g.chance(1, 8) { Some(g.range(50, 90)) } else { None },
         ..Default::default()
     };
     let kinds = [HKind::Addr, HKind::Addr, HKind::Sender, HKind::Caller, HKind::WeakSender, HKind::WeakCaller, HKind::WeakAddr];
@@ -166,6 +168,9 @@ pub fn check(v: &View) -> Vec<Violation> {
                 Op::Consume { .. } | Op::ConsumeSync { .. } => "consume",
                 _ => continue,
             };
+            if o.abandoned() {
+                continue; // the client dropped the operation's future itself
+            }
             crate::log::probe("c04_awaiter_checked");
             let end = o.end.unwrap();
             if a.dead.is_some_and(|d| o.begin > d) && kind == "await" {
